@@ -12,7 +12,7 @@ call of `normalize_url` inside it is the total model.  Here every site of
 |---|---|---|---|
 | 73 | `url.lower()` | — | `lower` |
 | 75-81 | `normalize_url(url, unsplit=False, …)` | whatever `normalize_url` lets through | `normalizeUrlExcept` (`Props/C05Total.lean`: always `.ok`) |
-| 84-85 | `if not isinstance(splitted, SplitResult): return splitted` (FX-C07-FPTOTAL) | — | the `.inl` branch |
+| 84-85 | `if not isinstance(splitted, SplitResult): return splitted` (FX-C07-c806a8b) | — | the `.inl` branch |
 | (before the fix) | `_, netloc, path, query, fragment = splitted` on a `str` | `ValueError` (length ≠ 5), then `AttributeError` on `.username` | `unpackOld` (kept for the witness) |
 | 87-92 | `.username .password .hostname` / `.port` of the assembled netloc | `.port`: `ValueError` | `pyNetlocAcc` |
 | 94-102 | `strip_lang_subdomains_from_hostname`; `split_suffix` → `safe_urlsplit(hostname)` | `urlsplit`: `ValueError` | `pyWalkHost` |
